@@ -18,11 +18,15 @@ REPO = os.environ.get("VP_RUN_REPO") or os.environ.get("MVF_REPO") or "/repo"
 
 def main():
     allc = "--all-checks" in sys.argv
+    # --after <seed id>: only the seeds that sort after it; results are merged into the existing sweep.json
+    after = sys.argv[sys.argv.index("--after") + 1] if "--after" in sys.argv else None
     out = {}
+    if after and os.path.exists(os.path.join(VERIF, "seeded", "sweep.json")):
+        out = json.load(open(os.path.join(VERIF, "seeded", "sweep.json")))
     props_all = [c["property_id"] for c in json.load(open(os.path.join(VERIF, "MANIFEST.json")))["checks"]]
     for d in sorted(os.listdir(os.path.join(VERIF, "seeded"))):
         patch = os.path.join(VERIF, "seeded", d, "patch.diff")
-        if not os.path.exists(patch):
+        if not os.path.exists(patch) or (after and d <= after):
             continue
         meta = json.load(open(os.path.join(VERIF, "seeded", d, "meta.json")))
         target = meta["breaks_property"]
